@@ -779,7 +779,9 @@ class Licensing(boolean.BooleanAlgebra):
             parsed_expression = self.parse(expression, strict=strict)
         except ExpressionError as e:
             expression_info.errors.append(str(e))
-            expression_info.invalid_symbols.append(e.token_string)
+            token_string = getattr(e, 'token_string', None)
+            if token_string is not None:
+                expression_info.invalid_symbols.append(token_string)
             return expression_info
 
         # Check `expression` keys (validate)
